@@ -305,11 +305,18 @@ impl GlobalIndex {
     pub fn into_index(self) -> Index {
         match Arc::try_unwrap(self.index) {
             Ok(index) => index,
-            Err(arc) => {
+            Err(mut arc) => {
                 // Seems index is still in use; this could be due to some threads using it which didn't yet completely shut down.
-                // sleep a bit to let threads using the index shut down, after this index should be available to unwrap
-                sleep(Duration::from_millis(100));
-                Arc::try_unwrap(arc).expect("index still in use")
+                // Wait for the threads using the index to shut down (a fixed 100 ms wait is not enough on a
+                // loaded machine); after this the index should be available to unwrap.
+                for _ in 0..600 {
+                    sleep(Duration::from_millis(100));
+                    match Arc::try_unwrap(arc) {
+                        Ok(index) => return index,
+                        Err(still_used) => arc = still_used,
+                    }
+                }
+                panic!("index still in use")
             }
         }
     }
